@@ -161,7 +161,9 @@ theorem style_chain_nodup (defs : List StyleDef) (id : Str) : (chain defs id).No
 
 /-- … takes at most one step per defined style plus one for a dangling reference, so it
 terminates on cyclic basedOn (the definition of `chainFrom` carries the termination proof;
-this is the explicit bound) … -/
+this is the explicit bound: the loop of `buildInheritanceChain` turns at most once per defined
+style, and since the chain is now built by appending and reversed once, the work is linear in
+that number; the Go slice is the reverse of `chain`, as before - the rewrite changes no output) … -/
 theorem style_chain_bounded (defs : List StyleDef) (id : Str) : (chain defs id).length ≤ defs.length + 1 := by
   have := chainFrom_length defs [] id
   rw [unvisited_nil] at this
@@ -217,15 +219,60 @@ example : levelOfId [cycA, cycB] [65] = none ∧ levelOfId [cycA, cycB] [66] = s
 
 /-! ### tables -/
 
-/-- **table_grid** (DOCX). Row r, cell i of the parsed table carries what the i-th `w:tc`
-of the r-th `w:tr` says: its paragraphs' texts joined in order, its gridSpan, its
-continuation flag; the vertical-merge pass touches row spans only. -/
-theorem table_grid (tbl : Node) :
-    stripRows (parseTable tbl) =
-      (childrenNamed tbl.kids sTr).map fun tr => (childrenNamed tr.kids sTc).map fun tc => strip (parseCell tc) := by
+/-- the vertical-merge pass touches row spans only: text, grid span and continuation flag of
+every cell of the parsed table are those `limitTableGrid` left (for every table) -/
+theorem table_grid_any (tbl : Node) : stripRows (parseTable tbl) = stripRows (limitTableGrid (parseRows tbl)) := by
   unfold parseTable
   rw [stripRows_processVerticalMerges]
+
+/-- **table_grid** (DOCX). Row r, cell i of the parsed table carries what the i-th `w:tc`
+of the r-th `w:tr` says: its paragraphs' texts joined in order, its gridSpan, its
+continuation flag; the vertical-merge pass touches row spans only.
+RESTATED (was: for every `w:tbl`): `ParseTable` now calls `limitTableGrid`, which sets every
+span to 1 when the table has spans and rows x spanned columns exceed `maxTableGridCells` =
+2^20. The statement holds as before for every table within that limit (hypothesis `h`, a
+decidable property of the authored table); beyond it see `table_grid_beyond`, and
+`table_content_kept` for what holds of every table. -/
+theorem table_grid (tbl : Node) (h : (parseRows tbl).length * colCount (parseRows tbl) ≤ maxTableGridCells) :
+    stripRows (parseTable tbl) =
+      (childrenNamed tbl.kids sTr).map fun tr => (childrenNamed tr.kids sTc).map fun tc => strip (parseCell tc) := by
+  rw [table_grid_any, limit_within _ h]
   simp [stripRows, parseRows, List.map_map, Function.comp_def]
+
+/-- the same for a table without any span, whatever its size -/
+theorem table_grid_nospans (tbl : Node) (h : hasSpans (parseRows tbl) = false) :
+    stripRows (parseTable tbl) =
+      (childrenNamed tbl.kids sTr).map fun tr => (childrenNamed tr.kids sTc).map fun tc => strip (parseCell tc) := by
+  rw [table_grid_any, limit_nospans _ h]
+  simp [stripRows, parseRows, List.map_map, Function.comp_def]
+
+/-- **table_grid_beyond** (DOCX). A table that has spans and whose rows x spanned columns
+exceed 2^20 is read with every cell one grid column wide: texts and continuation flags as
+authored, in source order, every `gridSpan` ignored. -/
+theorem table_grid_beyond (tbl : Node) (hs : hasSpans (parseRows tbl) = true)
+    (h : (parseRows tbl).length * colCount (parseRows tbl) > maxTableGridCells) :
+    stripRows (parseTable tbl) =
+      (childrenNamed tbl.kids sTr).map fun tr => (childrenNamed tr.kids sTc).map fun tc =>
+        ((parseCell tc).text, 1, (parseCell tc).cont) := by
+  rw [table_grid_any, limit_beyond _ hs h]
+  simp [stripRows, resetSpans, parseRows, strip, List.map_map, Function.comp_def]
+
+/-- **table_content_kept** (DOCX). For EVERY table, within the limit or not: row r, cell i of
+the parsed table holds the text (paragraphs joined in order) and the continuation flag of the
+i-th `w:tc` of the r-th `w:tr` - the grid limit never drops or reorders a cell. -/
+theorem table_content_kept (tbl : Node) :
+    (parseTable tbl).map (·.map fun c => (c.text, c.cont)) =
+      (childrenNamed tbl.kids sTr).map fun tr => (childrenNamed tr.kids sTc).map fun tc =>
+        ((parseCell tc).text, (parseCell tc).cont) := by
+  have h1 : (parseTable tbl).map (·.map fun c => (c.text, c.cont)) =
+      (stripRows (parseTable tbl)).map (·.map fun t => (t.1, t.2.2)) := by
+    simp [stripRows, strip, List.map_map, Function.comp_def]
+  rw [h1, table_grid_any]
+  have h2 : (stripRows (limitTableGrid (parseRows tbl))).map (·.map fun t => (t.1, t.2.2)) =
+      (limitTableGrid (parseRows tbl)).map (·.map fun c => (c.text, c.cont)) := by
+    simp [stripRows, strip, List.map_map, Function.comp_def]
+  rw [h2, limit_content]
+  simp [parseRows, List.map_map, Function.comp_def]
 
 /-- multi-paragraph cells: the non-empty paragraph texts, in order, joined by a newline -/
 theorem cell_text_joined (tc : Node) :
@@ -345,20 +392,27 @@ theorem exclusion_only_narrows (opts : ExtractOptions) (hdr ftr : List Str) (tri
 /-- **odt_body_interleave**. Inside `office:text` the streaming walk appends, for each
 child in source order, exactly the elements that child stands for (`elemsOfNode`: a
 paragraph, a heading, the items of a list, a table; a wrapper such as `text:section`
-contributes its children's elements in place). -/
+contributes its children's elements in place).
+RESTATED (was: for every list of children): `decodeInlineContentAt` now refuses the 10001st
+level of nested `text:span` / `text:a`; the element it happens in is dropped and the walk ends
+at the end of that paragraph. The statement holds as before when every body element is decoded
+to its end (`decodesList kids`, decidable; by `odt_decodes_iff_depth` it says that no
+paragraph of a body element nests spans deeper than `maxInlineDepth` = 10000); beyond the
+bound see `C16Bounds.odt_gives_up` / `odt_truncated`. -/
 theorem odt_body_interleave (defs : List Odt.StyleDef) (ta : List (Str × Str)) (kids : List Node) (acc : List Odt.Elem)
-    (hk : Odt.noTextList kids = true) :
+    (hk : Odt.noTextList kids = true) (hdec : Odt.decodesList kids = true) :
     Odt.walkNode defs (.elem Odt.sOfficeText ta kids) { inBody := false, acc := acc } =
       { inBody := false, acc := acc ++ Odt.elemsOfList defs kids } := by
-  simp only [Odt.walkNode, BEq.rfl, if_true]
-  rw [Odt.walk_inside_list defs kids _ rfl hk]
+  simp only [Odt.walkNode, BEq.rfl, if_true, Bool.false_eq_true, if_false]
+  rw [Odt.walk_inside_list defs kids _ rfl rfl hk hdec]
 
 /-- the same from the root of content.xml: `office:text` sits in `office:body`, nothing named
-`office:text` elsewhere (styles, scripts, …) -/
+`office:text` elsewhere (styles, scripts, …). RESTATED with `hdec` as `odt_body_interleave`. -/
 theorem odt_elements_interleave (docTag bodyTag : Str) (da ba ta : List (Str × Str)) (pre kids post : List Node)
     (styles : Option Node)
     (hdoc : docTag ≠ Odt.sOfficeText) (hbody : bodyTag ≠ Odt.sOfficeText)
-    (hpre : Odt.noTextList pre = true) (hpost : Odt.noTextList post = true) (hk : Odt.noTextList kids = true) :
+    (hpre : Odt.noTextList pre = true) (hpost : Odt.noTextList post = true) (hk : Odt.noTextList kids = true)
+    (hdec : Odt.decodesList kids = true) :
     Odt.elements (.elem docTag da (pre ++ [.elem bodyTag ba [.elem Odt.sOfficeText ta kids]] ++ post)) styles =
       Odt.elemsOfList (Odt.allStyles (.elem docTag da (pre ++ [.elem bodyTag ba [.elem Odt.sOfficeText ta kids]] ++ post)) styles) kids := by
   unfold Odt.elements
@@ -377,22 +431,50 @@ theorem odt_elements_interleave (docTag bodyTag : Str) (da ba ta : List (Str × 
   simp only [Odt.walkList]
   rw [Odt.walkNode]
   simp only [hb, Bool.false_eq_true, if_false, Bool.not_false, if_true, Odt.walkList]
-  rw [odt_body_interleave defs ta kids [] hk, Odt.walk_outside_list defs post _ rfl hpost]
+  rw [odt_body_interleave defs ta kids [] hk hdec, Odt.walk_outside_list defs post _ rfl hpost]
   simp
 
 /-- **table_grid** (ODT). Expanding row spans only inserts blank covered placeholders: in every
-row the authored cells (text = paragraphs joined in order, column/row span as written) stay in
-source order; a row is cut short only if it overflows the grid. -/
-theorem odt_table_grid (tbl : Node) : Odt.RowsKept (Odt.parseTable tbl) (Odt.parseRows tbl) := by
+row the cells `limitTableGrid` left (text = paragraphs joined in order, column/row span as
+written or, beyond the grid limit, 1) stay in source order; a row is cut short only if it
+overflows the grid. Holds for every table. -/
+theorem odt_table_grid_any (tbl : Node) : Odt.RowsKept (Odt.parseTable tbl) (Odt.limitTableGrid (Odt.parseRows tbl)) := by
   unfold Odt.parseTable Odt.processRowSpans
-  exact Odt.live_spanRows _ _ _ (Odt.parseRows_live tbl)
+  exact Odt.live_spanRows _ _ _ (Odt.limit_live _ (Odt.parseRows_live tbl))
+
+/-- **odt_table_grid**: within the grid limit the cells are the authored ones.
+RESTATED (was: for every `table:table`): `ParseTable` now calls `limitTableGrid`; the
+hypothesis `h` (rows x spanned columns ≤ `maxTableGridCells` = 2^20, decidable) is what the
+code demands for believing the spans. Beyond it: `odt_table_grid_beyond`. -/
+theorem odt_table_grid (tbl : Node)
+    (h : (Odt.parseRows tbl).length * Odt.colCount (Odt.parseRows tbl) ≤ Odt.maxTableGridCells) :
+    Odt.RowsKept (Odt.parseTable tbl) (Odt.parseRows tbl) := by
+  have := odt_table_grid_any tbl
+  rw [Odt.limit_within _ h] at this
+  exact this
+
+/-- **odt_table_grid_beyond**. A table that has spans and whose rows x spanned columns exceed
+2^20 is read without any span: no placeholder is inserted, every row holds its authored cells
+in source order, each 1 x 1 with its text. -/
+theorem odt_table_grid_beyond (tbl : Node) (hs : Odt.hasSpans (Odt.parseRows tbl) = true)
+    (h : (Odt.parseRows tbl).length * Odt.colCount (Odt.parseRows tbl) > Odt.maxTableGridCells) :
+    Odt.parseTable tbl = Odt.resetSpans (Odt.parseRows tbl) := by
+  unfold Odt.parseTable
+  rw [Odt.limit_beyond _ hs h]
+  apply Odt.processRowSpans_flat
+  intro row hrow c hc
+  simp only [Odt.resetSpans, List.mem_map] at hrow
+  obtain ⟨r0, _, rfl⟩ := hrow
+  simp only [List.mem_map] at hc
+  obtain ⟨c0, _, rfl⟩ := hc
+  exact ⟨Nat.le_refl 1, Nat.le_refl 1⟩
 
 /-- **odt_placeholders_blank**. Every covered cell of a parsed ODT table is the blank 1x1
 placeholder: it holds no text and no span of its own (whatever the authored cells say). -/
 theorem odt_placeholders_blank (tbl : Node) (row : List Odt.Cell) (c : Odt.Cell)
     (hrow : row ∈ Odt.parseTable tbl) (hc : c ∈ row) (hcov : c.covered = true) : c = Odt.coveredCell := by
   unfold Odt.parseTable Odt.processRowSpans at hrow
-  exact Odt.covered_blank_spanRows _ _ _ (Odt.parseRows_live tbl) row hrow c hc hcov
+  exact Odt.covered_blank_spanRows _ _ _ (Odt.limit_live _ (Odt.parseRows_live tbl)) row hrow c hc hcov
 
 /-- the authored grid itself: row r, cell i is the i-th `table:table-cell` of the r-th `table:table-row` -/
 theorem odt_cell_authored (tc : Node) :
